@@ -253,6 +253,14 @@ def rule_rw(rep, d, cls):
                     return
             if k_ == "MemberExpr" and n_.get("name") in ("dynamic", "stack"):
                 out.append((n_.get("name"), n_))
+            if k_ == "CXXMemberCallExpr":
+                # a member helper selected by overload resolution (tag dispatch on requires_allocation): the callee clang resolved is followed
+                c__ = ir.strip(ir.ekids(n_)[0])
+                tg_ = d.by_id.get(c__.get("referencedMemberDecl"))
+                if tg_ is not None and ir.has_body(tg_) and ir.enclosing_class(d, tg_) is cls and id(tg_) not in seen_decl:
+                    seen_decl.add(id(tg_))
+                    for r_ in [x_ for x_ in ir.walk_expr(ir.body(tg_)) if x_.get("kind") == "ReturnStmt"]:
+                        reads(r_, out)
             if k_ == "DeclRefExpr":
                 dec = d.by_id.get((n_.get("referencedDecl") or {}).get("id"))
                 if dec is not None and dec.get("kind") == "VarDecl" and "*" in ir.qtype(dec) and ir.ekids(dec) and id(dec) not in seen_decl:
@@ -1486,7 +1494,31 @@ def rule_cast(rep, d, cls):
             if ops is not None:
                 ops = [uncast(x) for x in ops]
                 ops = [linit.get(x[1], x) if x[0] == "ref" else x for x in ops]
-            ok = ops is not None and sorted(map(repr, ops)) == sorted(map(repr, [("call", ("mem", ("this",), "type")), ("ref", pn)]))
+            def like_type(x):
+                """x is this->type(), or evaluates to typeid(void) for an empty any and to vtable->type() otherwise"""
+                if x == ("call", ("mem", ("this",), "type")):
+                    return True
+                for vt in (NULL, VT):
+                    y = x
+                    for _ in range(4):
+                        y = uncast(y)
+                        if y[0] == "cond":
+                            c_ = evalx(y[1], vt, linit)
+                            if c_ in (NULL, VT):
+                                c_ = c_ == VT
+                            if not isinstance(c_, bool):
+                                return False
+                            y = y[2] if c_ else y[3]
+                        else:
+                            break
+                    y = uncast(y)
+                    tids_ = [((x_.get("typeArg") or {}).get("qualType")) for x_ in ir.walk_expr(f) if x_.get("kind") == "CXXTypeidExpr"]
+                    if vt == NULL and not (y[0] == "typeid" and tids_ and all(q_ == "void" for q_ in tids_)):
+                        return False
+                    if vt == VT and not (y[0] == "call" and y[1] == ("mem", ("mem", ("this",), "vtable"), "type")):
+                        return False
+                return True
+            ok = ops is not None and len(ops) == 2 and ((ops[1] == ("ref", pn) and like_type(ops[0])) or (ops[0] == ("ref", pn) and like_type(ops[1])))
             (rep.holds if ok else rep.violates)(R, "any::is_typed", "defining shape", where=d.where(f), **({} if ok else {"detail": "returns `%s`, expected the comparison of type() with the argument" % (ir.show(got) if got else "?")}))
         if nm == "type":
             bad = None
